@@ -16,7 +16,7 @@ ID = "C07"
 LEVEL = "exploration"
 TECHNIQUE = "runtime monitor: cross-process differential digests (hash seed, process history, pauses, wall-clock speed varied) + per-fire delivery-order check"
 RULE = ("each case is a batch of 6 generated stochastic programs (float/int/Duration clocks, seeded streams, stochastic "
-        "delays, simulation statistics, 1-2 fan-out event types with 2-4 listeners each, in half of them fresh listeners subscribed to the simulator's warm-up notification in construct_model) executed by 11 child "
+        "delays, simulation statistics, 1-2 fan-out event types with 2-4 listeners each, in half of them fresh listeners subscribed to the simulator's warm-up notification in construct_model) executed by 12 child "
         "interpreters: PYTHONHASHSEED in {0, 1, 4242, 7, random} x prior activity in {none, 3000 events, objects + "
         "unrelated replication} x pauses x injected sleeps x bounded chunks (run_up_to, last chunk beyond the end) x an earlier replication that was paused, abandoned and cleaned up x leading step() calls x a pause requested by a TIME_CHANGED subscriber (stop() on the run thread) x earlier replications of the same experiment (half of the programs run as replication r with persistent streams re-seeded by a stream updater); non-trivial = program with >= 10 executed events, >= 4 "
         "listener deliveries and >= 2 listener draws; distinct = canonical program hash")
@@ -70,7 +70,9 @@ def gen_case(rng, tier, i):
              "earlier_reps": rng.choice([[0], [0, 1], [0, 1, 2], [3, 1], [2, 2]])},
             {"hashseed": "13", "prior": "none", "pauses": [], "sleeps": False, "steps": rng.randint(2, 7)},
             {"hashseed": "17", "prior": "none", "pauses": [], "sleeps": False, "lstops": [rng.randint(1, 6)]},
-            {"hashseed": "19", "prior": "none", "pauses": [], "sleeps": False, "abandoned": rng.randint(1, 6)}]
+            {"hashseed": "19", "prior": "none", "pauses": [], "sleeps": False, "abandoned": rng.randint(1, 6)},
+            # bounded chunks that stop short of the end, the rest by a plain start() (which runs up to and including the end)
+            {"hashseed": "23", "prior": "none", "pauses": [], "sleeps": False, "chunks": sorted([rng.choice([0.1, 0.3]), rng.choice([0.5, 0.8])])}]
     return {"programs": progs, "configs": cfgs}
 
 
